@@ -231,21 +231,37 @@ func WriteSfm(sfmData *structs.SegFullMeta) {
 		return
 	}
 
-	sfmFd, err := os.OpenFile(sfmFname, os.O_WRONLY|os.O_CREATE|os.O_TRUNC, 0644)
+	// Write to a temporary file and rename it over the sfm, so that a crash while writing
+	// cannot leave a truncated sfm behind (it describes all the blocks flushed so far).
+	tmpFname := sfmFname + ".tmp"
+	sfmFd, err := os.OpenFile(tmpFname, os.O_WRONLY|os.O_CREATE|os.O_TRUNC, 0644)
 	if err != nil {
-		log.Errorf("WriteSfm: failed to open a sfm filename=%v: err=%v", sfmFname, err)
+		log.Errorf("WriteSfm: failed to open a sfm filename=%v: err=%v", tmpFname, err)
 		return
 	}
-	defer sfmFd.Close()
 
 	if _, err := sfmFd.Write(sfmJson); err != nil {
-		log.Errorf("WriteSfm: failed to write sfm: %v: err: %v", sfmFname, err)
+		log.Errorf("WriteSfm: failed to write sfm: %v: err: %v", tmpFname, err)
+		sfmFd.Close()
 		return
 	}
 
 	err = sfmFd.Sync()
 	if err != nil {
-		log.Errorf("WriteSfm: failed to sync sfm: %v: err: %v", sfmFname, err)
+		log.Errorf("WriteSfm: failed to sync sfm: %v: err: %v", tmpFname, err)
+		sfmFd.Close()
+		return
+	}
+
+	err = sfmFd.Close()
+	if err != nil {
+		log.Errorf("WriteSfm: failed to close sfm: %v: err: %v", tmpFname, err)
+		return
+	}
+
+	err = os.Rename(tmpFname, sfmFname)
+	if err != nil {
+		log.Errorf("WriteSfm: failed to rename %v to %v: err: %v", tmpFname, sfmFname, err)
 		return
 	}
 }
